@@ -15,6 +15,8 @@ var models map[string]modelFn
 
 // modelEffects: heap components a model may write (for the static write-set analysis).
 var modelEffects = map[string][]string{
+	"encoding/json.Unmarshal": {"*"},
+	"google.golang.org/protobuf/types/known/anypb.New": {"ghost.marshalfail"},
 	"(encoding/binary.bigEndian).PutUint16":    {"E:uint8"},
 	"(encoding/binary.bigEndian).PutUint32":    {"E:uint8"},
 	"(encoding/binary.bigEndian).PutUint64":    {"E:uint8"},
@@ -47,6 +49,13 @@ func init() {
 		"fmt.Sprintln":                             mFreshPure,
 		"errors.Is":                                mErrorsIs,
 		"(error).Error":                            mFreshPure,
+		"encoding/json.Unmarshal":                  mHavocPointee(1),
+		"google.golang.org/protobuf/types/known/anypb.New": mAnyNew,
+		"context.WithTimeout":                      mContextWith,
+		"context.WithCancel":                       mContextWith,
+		"context.WithDeadline":                     mContextWith,
+		"context.Background":                       mNonNilIface,
+		"context.TODO":                             mNonNilIface,
 	}
 }
 
@@ -207,4 +216,70 @@ func mTrailingZeros32(x *Exec, st *State, a []*Val, s *types.Signature, p token.
 	}
 	// order matters: lowest set bit wins, so build from high to low with the low test outermost
 	return scalar(types.Typ[types.Int], x.sc.defineB(x, "tz", x.sc.intSort(), t), x.sc.intSort())
+}
+
+// mHavocPointee: the callee may write anything into the object its argument idx points to (passed
+// as a pointer inside an interface, e.g. json.Unmarshal(data, &v)); the result is arbitrary.
+func mHavocPointee(idx int) modelFn {
+	return func(x *Exec, st *State, a []*Val, s *types.Signature, p token.Pos) *Val {
+		v := a[idx]
+		var ptr *Val
+		if v.K == KIface && v.box != nil {
+			ptr = v.box
+		} else if v.K == KPtr {
+			ptr = v
+		}
+		if ptr == nil || ptr.K != KPtr {
+			panic(unsupported("model needs a statically known pointer argument"))
+		}
+		t := ptrRootAt(ptr.P)
+		nv := x.freshVal(t, "unmarshalled")
+		x.store(st, ptr.P, nv)
+		return x.freshResults(st, s, "unmarshal")
+	}
+}
+
+// context.With*: a non-nil context and a cancel function whose call has no effect on modelled state.
+func mContextWith(x *Exec, st *State, a []*Val, s *types.Signature, p token.Pos) *Val {
+	ctx := x.freshVal(s.Results().At(0).Type(), "ctx")
+	x.sc.assume(not(eq(ctx.E[0].S, "0")))
+	cancel := &Val{K: KFunc, T: s.Results().At(1).Type(), Fn: &FuncVal{Opaque: "1", Harmless: true}}
+	return &Val{K: KTuple, T: s.Results(), E: []*Val{ctx, cancel}}
+}
+
+func mNonNilIface(x *Exec, st *State, a []*Val, s *types.Signature, p token.Pos) *Val {
+	r := x.freshVal(s.Results().At(0).Type(), "iface")
+	x.sc.assume(not(eq(r.E[0].S, "0")))
+	return r
+}
+
+// anypb.New(m): marshals m. Model: a fresh *anypb.Any; when it succeeds, the ghost function
+// specAnySrc(any) identifies a snapshot (field-wise copy made now) of the message struct, so later
+// writes to the message do not change what was marshalled. Nested messages are shared, not copied.
+func mAnyNew(x *Exec, st *State, a []*Val, s *types.Signature, p token.Pos) *Val {
+	m := a[0]
+	errV := x.freshVal(s.Results().At(1).Type(), "anyerr")
+	x.bumpTop(st)
+	ref := x.sc.declare("anyref", "Int")
+	// either an error and a nil Any, or no error and a freshly allocated Any
+	x.sc.assume(or(and(not(eq(errV.E[0].S, "0")), eq(ref, "0")), and(eq(errV.E[0].S, "0"), "(> "+ref+" "+x.prevTop+")", "(<= "+ref+" "+st.allocTop+")")))
+	// ghost counter of marshalling failures
+	fk := "G|marshalfail"
+	x.keyInfo[fk] = compInfo{sort: "Int"}
+	fh := x.use(x.heapSym(st, fk, x.keyInfo[fk]))
+	x.setHeap(st, fk, x.keyInfo[fk], ite(eq(errV.E[0].S, "0"), fh, "(+ "+fh+" 1)"))
+	pt := s.Results().At(0).Type().Underlying().(*types.Pointer)
+	anyV := &Val{K: KPtr, T: s.Results().At(0).Type(), P: &Ptr{Kind: PHeap, Ref: ref, Root: pt.Elem()}}
+	if !x.sc.decl["uf_specAnySrc"] {
+		x.sc.decl["uf_specAnySrc"] = true
+		x.sc.ufDecls = append(x.sc.ufDecls, "(declare-fun uf_specAnySrc (Int) "+x.sc.intSort()+")")
+	}
+	if m.K == KIface && m.box != nil && m.box.K == KPtr && m.box.P.Kind == PHeap && len(m.box.P.Path) == 0 {
+		t := m.box.P.Root
+		snap := x.alloc(st)
+		v := x.load(st, m.box.P)
+		x.store(st, &Ptr{Kind: PHeap, Ref: snap, Root: t}, v)
+		x.sc.assume(implies(not(eq(ref, "0")), eq("(uf_specAnySrc "+ref+")", x.intAsGo(snap))))
+	}
+	return &Val{K: KTuple, T: s.Results(), E: []*Val{anyV, errV}}
 }
